@@ -4,7 +4,7 @@ from vlib.runner import finish, prepare
 
 
 def run(ctx):
-    built = prepare(ctx, ["Gen_logic", "Gen_ranges", "Gen_valmaps", "Gen_enums"], ["Props/C16.vo", "Corr/Validate.vo"])
+    built = prepare(ctx, ["Gen_logic", "Gen_ranges", "Gen_valmaps", "Gen_enums", "Gen_select", "Gen_status", "Gen_pool"], ["Props/C16.vo", "Corr/Validate.vo", "Proofs/C09_gen.vo", "Proofs/C13_gen.vo", "Proofs/C17_gen.vo"])
     # plant invalid expressions: the generator produces structurally invalid condition expressions with higher weight
     orig = valcorr.cond_expr
 
